@@ -50,6 +50,10 @@ OpJson(o) ==
 CfgJson(c) == [kind |-> "sync", cap |-> c.cap, ttl |-> c.ttl, tti |-> c.tti,
                weigher |-> c.weigher, hasher |-> c.hasher, nkeys |-> c.nkeys]
 
+\* what the replay compares with the real cache: everything except the live-object counts,
+\* which the model states for quiescent points only
+Expected(e) == [e EXCEPT !.snap = [f \in DOMAIN e.snap \ {"lk", "lv"} |-> e.snap[f]]]
+
 Init == /\ \E c \in Cfgs : s = SInit(c) /\ hs = M!HInit(c)
         /\ bad = {}
         /\ h = <<>>
@@ -62,7 +66,7 @@ Next == \E o \in Ops(s) :
              /\ bad' = {p \in CheckProps : ~M!AllowedBy(p, hs, pre, e)}
              /\ hs' = IF CheckProps = {} THEN hs ELSE M!HUpdate(CheckProps, hs, pre, e)
              /\ h' = IF Emit \/ MaxDepth > 0 THEN Append(h, OpJson(o)) ELSE h
-             /\ (Emit => PrintT(<<"EDGE", ToJson([cfg |-> CfgJson(s.cfg), ops |-> h', last |-> e])>>))
+             /\ (Emit => PrintT(<<"EDGE", ToJson([cfg |-> CfgJson(s.cfg), ops |-> h', last |-> Expected(e)])>>))
 
 Spec == Init /\ [][Next]_vars
 
